@@ -90,6 +90,8 @@ def compare(program, facts: dict) -> tuple[list[str], dict]:
                 continue  # synthesised named-tuple members / attributes assigned on self: not part of the model
             mine_owner = next((c for c in k.mro if mname in c.methods or mname in c.class_attrs or mname in c.setters), None)
             n_members += 1
+            if mine_owner is None and f"{owner}.{mname}" in getattr(program, "absorbed", ()):
+                continue  # a new private helper whose body the model inlined into every caller
             if mine_owner is None:
                 problems.append(f"{full}.{mname}: mypy resolves to {owner} ({kind}), the model finds no definition")
                 continue
